@@ -251,7 +251,7 @@ def check_mixed(res):
                     res.add_violation(ID, run.viol('mixed-types', {'call': cname, 'name_kind': 'abs-missing' if b'nonexistent' in os.fsencode(nm) else 'other',
                                                                     'name_is_bytes': isinstance(nm, bytes)},
                                                    ('exc', 'TypeError'), r if r[0] == 'exc' else ('ok', repr(r[1])[:60])))
-        for p, r_ in (('a*', os.fsencode(root)), (b'a*', root)):
+        for p, r_ in (('a*', os.fsencode(root)), (b'a*', root), ('a*', b''), (b'a*', ''), ('*', b''), (b'*', '')):
             for cname, fn in (('glob', lambda: G.glob(p, root_dir=r_)), ('iglob', lambda: list(G.iglob(p, root_dir=r_))),
                               ('globmatch-root', lambda: G.globmatch(p[:1], p, flags=G.REALPATH, root_dir=r_)),
                               ('WcMatch', lambda: WM.WcMatch(r_, p).match())):
